@@ -515,6 +515,38 @@ def explore_pyapi(case):
                         break
             except Exception as ex:
                 res.fail(site=config, clause="python_api_reused_elements:no_exception", cls=type(ex).__name__, detail=dict(error=str(ex)[:200]), sub="pyapi", case=case)
+    # the group method in its general form: both increments carry a rotation and translational parts, generic state.  The mixed-invariant
+    # flow is X1 = expm(r^ - B~) X0 expm(l^ + B~) with B~ the 2x2 coupling in the lower right block of the 5x5 matrices (the strapdown step
+    # is the case r = (0, -g e3 dt, 0)); matrices by an independent wedge and scipy's expm
+    def wedge5(x):
+        W = np.zeros((5, 5))
+        W[:3, :3] = ref.hat(x[6:9])
+        W[:3, 3] = x[3:6]
+        W[:3, 4] = x[0:3]
+        return W
+    gens = [np.array([0.3, -0.5, 0.2, 0.7, 0.1, -0.4, 0.25, -0.3, 0.45]), np.array([-1.0, 0.4, 0.6, -0.2, 0.9, 0.3, -0.5, 0.35, 0.2]), np.array([0.0, 0.0, 0.0, 0.5, -0.2, 0.1, 0.0, 0.0, 0.6]),
+            np.array([0.2, 0.1, -0.3, 0.0, 0.0, 0.0, 0.02, -0.01, 0.015])]
+    for config, G in (("strapdown_quat", lib.lie.SE23Quat), ("exp_mixed_mrp", lib.lie.SE23Mrp)):
+        x0 = initial_states(config, seed)[1]
+        M0 = np.eye(5)
+        p0_, v0_, R0_ = split(config, x0)
+        M0[:3, :3], M0[:3, 3], M0[:3, 4] = R0_, v0_, p0_
+        for lv, rv in itertools.product(gens, repeat=2):
+            for dt_ in (0.7, 0.05):
+                res.count("evaluations")
+                res.nontrivial.add(hash((config, "general", lv.tobytes(), rv.tobytes(), dt_)))
+                Bn = np.array([[0, 1.0], [0, 0]]) * dt_
+                try:
+                    with contextlib.redirect_stdout(io.StringIO()):
+                        X1 = G.exp_mixed(G.elem(ca.DM(x0)), lib.lie.se23.elem(ca.DM(lv)), lib.lie.se23.elem(ca.DM(rv)), ca.SX(ca.DM(Bn)))
+                        x1 = numapi.ev(X1.param).reshape(-1)
+                except Exception as ex:
+                    res.fail(site=config, clause="python_api_reused_elements:no_exception", cls="general_increments", detail=dict(error="%s: %s" % (type(ex).__name__, str(ex)[:200])), sub="pyapi", case=case)
+                    continue
+                Bt = np.zeros((5, 5))
+                Bt[3:, 3:] = Bn
+                Mref = ref.expm(wedge5(rv) - Bt) @ M0 @ ref.expm(wedge5(lv) + Bt)
+                judge(res, config, x1, Mref[:3, 4], Mref[:3, 3], Mref[:3, :3], 1.0, "python_api_general_increments", dict(x0=x0, l=lv, r=rv, dt=dt_, cls="r_rotates" if maxabs(rv[6:]) > 0 else "r_translates"), case)
     res.samples.append(dict(pyapi=True))
     return res
 
